@@ -87,7 +87,7 @@ func TestC06_Trees(t *testing.T) {
 	defer rec.Finish(t)
 	rec.Rapid(t, func(rt *rapid.T) {
 		c := drawTreeCase(rt, 1)
-		c.Allowed = nil
+		c.Allowed, c.AllowedTerms = nil, nil
 		out := checkC06(c)
 		n := 0
 		if out.OK {
